@@ -11,7 +11,7 @@ TARGETS = {
 PROPS = {
     "C10": dict(
         targets=["c10_determinism", "c10_complex", "c10_block2", "c10_block3", "c10_adapters", "c10_composite"],
-        fuzz=[dict(target="c10_determinism", prop="determinism", quick_runs=15000, thorough_runs=600000, thorough_jobs=8, max_len=1024)],
+        fuzz=[dict(target="c10_determinism", prop="determinism", quick_runs=15000, thorough_runs=300000, thorough_jobs=8, max_len=1024)],
         level="exploration",
         rule="tape-decoded systems with the degenerate classes generated on purpose (1x1, diagonal, disconnected unions, rows with only positive off-diagonals, "
              "coarse_enough in {0,1,2,5,20,3000}, max_levels in {1,2,3,100}, near-null-space wider than an aggregate) x 4 coarsenings x 9 relaxations x 8 solvers "
